@@ -48,6 +48,7 @@ type wCase struct {
 	Hist  []wOp      `json:"history"`
 	Fault *faultSpec `json:"fault,omitempty"` // applies to the last op of the history
 	Pre   *wFaulted  `json:"earlier_fault,omitempty"`
+	Conc  *c10cCase  `json:"concurrent,omitempty"` // C10's concurrent part (c10b_concurrent.go)
 }
 
 func opAlphabet(prop string, v *world.View) []wOp {
@@ -147,6 +148,10 @@ func worldExplore(t *testing.T, c *vcore.Ctx, prop string) {
 			c.HarnessError("replay: %v", err)
 			return
 		}
+		if wc.Conc != nil {
+			c10Concurrent(t, c, b, snap0, wc.Conc)
+			return
+		}
 		worldReplay(t, c, prop, b, snap0, &wc)
 		return
 	}
@@ -190,7 +195,7 @@ func worldExplore(t *testing.T, c *vcore.Ctx, prop string) {
 				wc := &wCase{Hist: hist, Pre: s.fault}
 				worldOracle(c, prop, s, op, res, tr, post, obs, wc, c.Shard == 0)
 				key := canonView(post)
-				if !seen[key] {
+				if !seen[key] && usageConsistent(post) {
 					seen[key] = true
 					ns := &wState{snap: b.Save(), view: post, key: key, hist: hist, depth: depth + 1, fault: s.fault}
 					next = append(next, ns)
@@ -227,8 +232,10 @@ func worldExplore(t *testing.T, c *vcore.Ctx, prop string) {
 					fwc := &wCase{Hist: hist, Fault: &f}
 					worldOracle(c, prop, s, op, fres, ftr, fpost, fobs, fwc, true)
 					// a faulted successor is a pre-state for further fault-free operations
+					// (unless its usage already disagrees with its records: that was reported just above, and
+					// everything that happens from such a state is a consequence of it, not a new finding)
 					fkey := canonView(fpost)
-					if !seen[fkey] && depth+1 < depthFree {
+					if !seen[fkey] && depth+1 < depthFree && usageConsistent(fpost) {
 						seen[fkey] = true
 						next = append(next, &wState{snap: b.Save(), view: fpost, key: fkey, hist: hist, depth: depth + 1, fault: &wFaulted{At: len(hist) - 1, Fault: f}})
 						c.State()
@@ -238,6 +245,20 @@ func worldExplore(t *testing.T, c *vcore.Ctx, prop string) {
 		}
 		frontier = next
 	}
+	if prop == "C10" {
+		c10Concurrent(t, c, b, snap0, nil)
+	}
+}
+
+// usageConsistent: every node's usage equals the sum over its recorded workloads (the C10 oracle).
+// A state that fails it has been reported when it was produced and is not expanded any further.
+func usageConsistent(v *world.View) bool {
+	for n := range v.Nodes {
+		if len(v.CompareUsage(n)) > 0 {
+			return false
+		}
+	}
+	return true
 }
 
 // worldStep runs one operation (optionally with a fault) from the restored backend state.
